@@ -232,6 +232,17 @@ def hooks(log):
         if pts[b][0] == pts[b][0] and pts[b][0] > worst + slack:
             log.setdefault("centre_fail", []).append((log["centres"], float(pts[b][0]), float(worst), float(self._penalty)))
         return o_trs(self, options)
+    o_init = F.TrustRegion.__init__
+
+    def init(self, pb, options, constants):
+        # what the user asked for (completed with the defaults) before the interpolation set is built ...
+        rb0, re0 = float(options["radius_init"]), float(options["radius_final"])
+        o_init(self, pb, options, constants)
+        # ... and what the framework starts from, next to half the narrowest width of the (internal) box
+        with np.errstate(invalid="ignore"):
+            maxr = float(0.5 * np.min(pb.bounds.xu - pb.bounds.xl)) if pb.n else float("inf")
+        log["init"] = (rb0, re0, maxr, float(self._radius), float(self._resolution), float(options["radius_final"]))
+    patch(F.TrustRegion, "__init__", init)
     patch(F.TrustRegion, "get_trust_region_step", trs)
     patch(F.TrustRegion, "update_radius", upd)
     patch(F.TrustRegion, "enhance_resolution", enh)
@@ -309,7 +320,7 @@ def run(chk, rng, replay=None):
             specfail.append(("component", c, f))
         regimes["enh"] += sum(1 for o in c["ops"] if o[0] == "enh")
     # (ii) real runs
-    n_ops = n_scans = n_removes = n_pen = n_centres = 0
+    n_ops = n_scans = n_removes = n_pen = n_centres = n_init = 0
     run_failures = []
     reqs, keys = [], []
     for d in descs:
@@ -322,6 +333,14 @@ def run(chk, rng, replay=None):
             run_failures.append(type(exc).__name__ + ": " + str(exc)[:120])
             continue
         rhoend = log["rhoend"]
+        if log.get("init") is not None:
+            rb0, re0, maxr, rad, res, re1 = log["init"]
+            n_init += 1
+            if not (res <= rb0 and res <= maxr and rad == res and re1 <= res and re1 <= re0):
+                specfail.append(("run", d, (0, f"initial radius not fitted to the bounds: the run starts with radius {rad!r}, resolution {res!r}, radius_final {re1!r} for radius_init {rb0!r}, radius_final {re0!r} and half the narrowest width of the box {maxr!r}")))
+            elif maxr == maxr:
+                reqs.append(f"fit | {f2b(rb0)} {f2b(re0)} {f2b(maxr)}")
+                keys.append(("fit", d, (f2b(res), f2b(re1))))
         for op in log["ops"]:
             n_ops += 1
             pre, post = op[-2], op[-1]
@@ -348,12 +367,22 @@ def run(chk, rng, replay=None):
                 specfail.append(("run", d, (n_pen, f"penalty {post!r} after {kind}")))
     a2 = driver(reqs) if reqs else []
     for (kind, d, got_idx, *rest), a in zip(keys, a2):
-        if kind == "scan":
+        if kind == "fit":
+            if a != f"{got_idx[0]},{got_idx[1]}":
+                mism.append((d, ("initial (resolution, radius_final)", got_idx), a))
+        elif kind == "scan":
             if int(a.split(" ")[0]) != got_idx:
-                pts = rest[0]
+                pts, tol = rest
                 if any(m != m for m, _ in pts):
                     continue      # NaN merit values are outside the model
-                mism.append((d, ("set_best_index", got_idx), a))
+                km = int(a.split(" ")[0])
+                # the documented rule (the model) picks another point: is it a witness against the implementation's pick?
+                if pts[km][0] < pts[got_idx][0] - tol:
+                    specfail.append(("run", d, (0, f"centre is not the point of least merit: point {got_idx} (merit {pts[got_idx][0]!r}) chosen although point {km} has merit {pts[km][0]!r}")))
+                elif pts[km][0] <= pts[got_idx][0] + tol and pts[km][1] < pts[got_idx][1]:
+                    specfail.append(("run", d, (0, f"a merit tie within rounding was not resolved to the smaller violation: point {got_idx} (merit {pts[got_idx][0]!r}, violation {pts[got_idx][1]!r}) chosen although point {km} has merit {pts[km][0]!r} and violation {pts[km][1]!r}")))
+                else:
+                    mism.append((d, ("set_best_index", got_idx), a))
             else:
                 sw = int(a.split(" ")[1])
                 pts, tol = rest
@@ -368,7 +397,7 @@ def run(chk, rng, replay=None):
         "rule": "(i) radius/resolution rules on a real TrustRegion object: constants from _set_default_constants on the boundary lattice of their domains, radius_final over 30 decades incl. 0 and equal to radius_init, ratios incl. negative/huge/exactly at low_ratio and high_ratio, step norms 0..1e3 radii, 1..24 operations per case, compared bit-for-bit with Model/Radius.lean on Float; (ii) real minimize runs with every radius/resolution change, set_best_index scan and get_index_to_remove choice logged and replayed. Non-trivial: more than one operation / a real run; distinct by content.",
         "samples": [comp[-1]] if comp else [descs[-1]],
         "component_cases": len(comp), "real_runs": len(descs), "radius_ops_in_runs": n_ops, "best_index_scans": n_scans,
-        "index_to_remove_calls": n_removes, "penalty_updates": n_pen, "centre_checks_at_iteration_start": n_centres, "correspondence_mismatches": len(mism),
+        "index_to_remove_calls": n_removes, "penalty_updates": n_pen, "initial_radii_checked_against_the_bounds": n_init, "centre_checks_at_iteration_start": n_centres, "correspondence_mismatches": len(mism),
         "real_runs_that_raised_something_else_than_ValueError": len(run_failures),
     })
     chk.assumptions += ["theorems are over exact rationals; binary64 satisfies the same order facts because rounding is monotone (fl(c*x) >= x for c >= 1) - checked on the implementation's own values in every case above",
